@@ -198,4 +198,13 @@ def cases(ctx):
             out.append(Case("compile " + hexs(o * d + "1" + c * d), ("nesting",)))
             out.append(Case("compile " + hexs(o * d + "1" + c * (d - 1)), ("nesting",)))
             out.append(Case("compile " + hexs(o * d), ("nesting",)))
+    # degenerate constructs: empty bodies, empty literals, constructs missing their optional parts — in every position
+    heads = ["match x {{{B}}}", "match 1 {{{B}}}", "if true {{{B}}}", "if true {{ 1 }} else {{{B}}}", "while false {{{B}}}", "loop {{ break; {B} }}", "fn f() {{{B}}}", "fn() {{{B}}}",
+             "map {{{B}}}", "[{B}]", "{{{B}}}", "@ true {{{B}}}", "@ {{{B}}}", "@ end {{{B}}}", "f({B})", "match x {{ 1 => {{{B}}} }}", "match x {{ _ => {{{B}}} }}", "match x {{ 1 | 2 => {B} }}"]
+    bodies = ["", " ", ";", ",", "_", "_ =>", "1 =>", "=>", "1 => ,", "..", "1..", "..2", "1..2 =>", "|", "1 |", "a:", "a: 1", ":"]
+    for h in heads:
+        for b in bodies:
+            body = h.format(B=b)
+            for wrap in ("{X}", "let v = {X};", "let x = 1; {X}", "fn g() {{ {X} }} g();", "puts({X});", "{X}; {X}"):
+                out.append(Case("compile " + hexs(wrap.format(X=body)), ("degenerate",)))
     return out + pprog_cases(ctx, progs)
